@@ -18,6 +18,7 @@ FEATURES = [
     "kern_block", "fractional", "quadratic", "cubic", "ttx_data", "vertical",
     "prodnames_off", "meta", "instructions_off", "dottedcircle", "ds_skipexport",
     "openinfo", "background_layer", "glyph_lib", "empty_glyph", "underline_pos", "ds5_vfs",
+    "multi_anchor",
 ]
 
 # name, unicodes, kind
@@ -285,6 +286,30 @@ def gen_family(rng, force=(), forbid=(), n_masters=None, max_glyphs=14, p_sparse
             g["anchors"].append(["exit", 0, rng.choice([0, 120])])
         if role == "composite" and rng.random() < 0.2 and "marks" in on:
             g["anchors"].append(["top", _q(rng, w / 2, spec["frac"]), 800])
+    if "multi_anchor" in on and "marks" in on:
+        # several anchor classes; mark glyphs that belong to more than one mark class
+        # (makes the mark writer's class grouping / lookup splitting non-trivial)
+        extra = ["topright", "aside", "bottomright", "ogonek"]
+        rng.shuffle(extra)
+        extra = extra[: rng.randint(2, 4)]
+        mark_names = [n for n, _, r in roster if r.startswith("mark")]
+        for k, n in enumerate(mark_names):
+            g = glyphs[n]
+            for cls in ([extra[k % len(extra)]] + ([extra[(k + 1) % len(extra)]] if rng.random() < 0.5 else [])):
+                if not any(a[0] == "_" + cls for a in g["anchors"]):
+                    g["anchors"].append(["_" + cls, _q(rng, (g["width"] or 200) / 2, spec["frac"]), rng.choice([300, 450])])
+        for n, _, r in roster:
+            if r in ("base", "alt", "curs"):
+                g = glyphs[n]
+                for cls in extra:
+                    if rng.random() < 0.8:
+                        g["anchors"].append([cls, _q(rng, (g["width"] or 300) * rng.choice([0.2, 0.8, 1.0]), spec["frac"]),
+                                             rng.choice([0, 350, 650])])
+            if r == "liga" and rng.random() < 0.7:
+                g = glyphs[n]
+                c0 = extra[0]
+                g["anchors"].append([c0 + "_1", _q(rng, (g["width"] or 300) * 0.3, spec["frac"]), 620])
+                g["anchors"].append([c0 + "_2", _q(rng, (g["width"] or 300) * 0.7, spec["frac"]), 620])
     if "vertical" in on:
         for g in glyphs.values():
             g["height"] = rng.choice([upm, upm + 100])
